@@ -65,6 +65,18 @@ func NewSR() *SR {
 	return p
 }
 
+// defaultOrigin gives the false origin (x_0, y_0) and the origin of the
+// projection (lat_0, lon_0) their PROJ.4 default of zero when the definition
+// does not mention them. Without it they stay NaN and every coordinate the
+// projection computes is NaN.
+func (sr *SR) defaultOrigin() {
+	for _, v := range []*float64{&sr.X0, &sr.Y0, &sr.Lat0, &sr.Long0} {
+		if math.IsNaN(*v) {
+			*v = 0
+		}
+	}
+}
+
 func registerTrans(proj TransformerFunc, names ...string) {
 	if projections == nil {
 		projections = make(map[string]TransformerFunc)
